@@ -54,6 +54,8 @@ class Collector(object):
         self.fail_hashes = set()
         self.calls_after_fail = 0
         self.shrink_budget = shrink_budget
+        self.shrink_wall = 40.0 if shrink_budget <= 2000 else 150.0
+        self.t_fail = None
         self.extra = collections.Counter()
 
     def note(self, case, findings, info, h=None):
@@ -75,6 +77,15 @@ class Collector(object):
         if findings:
             self.failing = (case, findings)
             self.fail_hashes.add(h)
+            if self.t_fail is None:
+                self.t_fail = time.time()
+
+    def shrink_exhausted(self):
+        """True once a failure is known and the shrink budget (executions or wall time) is used up.  From then on
+        every case is reported as failing without being run, which makes Hypothesis' shrinker collapse and stop at once;
+        the replay file is the smallest case that *really* failed (self.failing), not what Hypothesis ends on."""
+        return self.failing is not None and (self.calls_after_fail > self.shrink_budget or
+                                             time.time() - self.t_fail > self.shrink_wall)
 
     def check(self, mod, case):
         """Body of a @given test: run the case, raise Failure on findings.
@@ -85,10 +96,8 @@ class Collector(object):
         h = chash(case)
         if self.failing is not None:
             self.calls_after_fail += 1
-            if self.calls_after_fail > self.shrink_budget:
-                if h in self.fail_hashes:
-                    raise Failure("known failing case")
-                return
+            if self.shrink_exhausted():
+                raise Failure("shrink budget exhausted")
         findings, info = mod.run_case(case)
         self.note(case, findings, info, h)
         if findings:
